@@ -548,6 +548,11 @@ class FunctionReport:
         self.path_summaries = []
 
 
+def loops_mod():
+    from . import loops
+    return loops
+
+
 def verify_function(repo, registry, qualname, max_paths=400, post_hooks=(), fixed=None):
     """symbolically executes every path of the function under its `requires`, collecting obligations:
     internal (bounds, divisors, callee preconditions, loop invariants) and the contract's ensures/raises."""
@@ -558,6 +563,8 @@ def verify_function(repo, registry, qualname, max_paths=400, post_hooks=(), fixe
     rep.qualname = qualname
     work = [[]]
     seen_notes = set()
+    registry.dtype_hints = {}
+    restarts = 0
     while work:
         trace = work.pop()
         rep.paths += 1
@@ -670,6 +677,18 @@ def verify_function(repo, registry, qualname, max_paths=400, post_hooks=(), fixe
             rep.path_summaries.append({"decisions": list(ex.decisions), "outcome": outcome[0]})
         except Infeasible:
             pass
+        except loops_mod().RestartFunction as rs:
+            registry.under_proof = None
+            registry.proof_contract = None
+            restarts += 1
+            if restarts > 16:
+                rep.unsupported.append("too many restarts: %s" % rs)
+                break
+            rep = FunctionReport(finfo)
+            rep.qualname = qualname
+            work = [[]]
+            seen_notes = set()
+            continue
         except (Unsupported, MergeAbort) as u:
             rep.unsupported.append("%s" % u)
         except (BreakSignal, ContinueSignal):
